@@ -477,6 +477,146 @@ theorem refines_spec (E : Engine σ μ α κ ρ) (X : Exchange χ ρ α) (b : Sy
   rw [this, g1]
   simp [processWithAudit, engAfter_state, eng0]
 
+/-! ## The last segment: what `shutdown()` / `abort()` still let the engine process
+
+Oracle review C20S-H1: the spec driver now STATES `m` (empty) and `a` (empty) in the final block and
+`h` / `m` / `a` (all empty) in the `join` block; these theorems are what the empty lines rest on. -/
+
+/-- An action that is no forwarder step: a user action (push onto the market stream, handle call,
+`take_audit`, `shutdown` / `abort`) or an iteration of the engine runner. -/
+def Act.noForward : Act μ κ → Bool
+  | .fwdMarket => false
+  | .fwdAccount _ => false
+  | _ => true
+
+/-- `self.engine.await` inside `shutdown` / `abort` (the driver's `pickDrain` scheduler) consists of
+runner iterations only. -/
+theorem drain_only_engine (E : Engine σ μ α κ ρ) (X : Exchange χ ρ α) (n : Nat) (s : Sys σ χ μ α κ ρ) :
+    ∀ a ∈ schedActs E X pickDrain n s, a = Act.engine := by
+  induction n generalizing s with
+  | zero => intro a ha; simp [schedActs] at ha
+  | succ n ih =>
+    intro a ha
+    unfold schedActs at ha
+    cases hp : pickDrain s with
+    | none => simp [hp] at ha
+    | some b =>
+      simp only [hp, List.mem_cons] at ha
+      have hb : b = Act.engine := by
+        unfold pickDrain at hp
+        split at hp
+        · cases hp
+        · split at hp
+          · injection hp with hp; exact hp.symm
+          · cases hp
+      rcases ha with ha | ha
+      · rw [ha, hb]
+      · exact ih _ a ha
+
+/-- (the last segment) As long as no forwarder runs — which is the case between the user's last
+`await` and the return of `shutdown()` / `abort()`: handle sends are synchronous, the forwarders are
+tasks that need the scheduler — a feed that holds only handle events keeps holding only handle
+events, and whatever the engine processes in the meantime are handle events: no market event and no
+account event. -/
+theorem no_forward_handle_only (E : Engine σ μ α κ ρ) (X : Exchange χ ρ α) (acts : List (Act μ κ))
+    (s : Sys σ χ μ α κ ρ) (hf : ∀ e ∈ s.feed, e.isHandle = true)
+    (ha : ∀ a ∈ acts, Act.noForward a = true) :
+    ∃ l, (run E X s acts).processed = s.processed ++ l ∧ (∀ e ∈ l, e.isHandle = true) ∧
+      (∀ e ∈ (run E X s acts).feed, e.isHandle = true) := by
+  induction acts generalizing s with
+  | nil => exact ⟨[], by simp [run], by simp, hf⟩
+  | cons a acts ih =>
+    have hstep : ∃ l, (step E X s a).processed = s.processed ++ l ∧ (∀ e ∈ l, e.isHandle = true) ∧
+        (∀ e ∈ (step E X s a).feed, e.isHandle = true) := by
+      cases a with
+      | push m => exact ⟨[], by simp [step, stepPush], by simp, by simpa [step, stepPush] using hf⟩
+      | fwdMarket => simp [Act.noForward] at ha
+      | fwdAccount k => simp [Act.noForward] at ha
+      | engine =>
+        simp only [step, stepEngine]
+        split
+        · exact ⟨[], by simp, by simp, hf⟩
+        · cases hfe : s.feed with
+          | nil => exact ⟨[], by simp, by simp, by simp [hfe]⟩
+          | cons e rest =>
+            refine ⟨[e], by simp, ?_, ?_⟩
+            · intro x hx; simp at hx; rw [hx]; exact hf e (by simp [hfe])
+            · intro x hx; exact hf x (by simp [hfe]; right; simpa using hx)
+      | call c =>
+        refine ⟨[], ?_, by simp, ?_⟩
+        · simp only [step, stepCall, send]; split <;> (try split) <;> simp
+        · simp only [step, stepCall, send]
+          split
+          · exact hf
+          · split
+            · exact hf
+            · intro x hx
+              simp at hx
+              rcases hx with hx | hx
+              · exact hf x hx
+              · rw [hx]; exact Call.event_isHandle c
+      | close how =>
+        refine ⟨[], ?_, by simp, ?_⟩
+        · simp only [step, stepClose, send]; split <;> (try split) <;> simp
+        · simp only [step, stepClose, send]
+          split
+          · exact hf
+          · split
+            · exact hf
+            · intro x hx
+              simp at hx
+              rcases hx with hx | hx
+              · exact hf x hx
+              · rw [hx]; rfl
+      | takeAudit =>
+        refine ⟨[], ?_, by simp, ?_⟩
+        · simp only [step, stepTakeAudit]; split <;> simp
+        · simp only [step, stepTakeAudit]; split <;> exact hf
+    obtain ⟨l1, h1, h2, h3⟩ := hstep
+    obtain ⟨l2, g1, g2, g3⟩ := ih (step E X s a) h3 (fun b hb => ha b (by simp [hb]))
+    refine ⟨l1 ++ l2, ?_, ?_, ?_⟩
+    · show (run E X (step E X s a) acts).processed = _
+      rw [g1, h1, List.append_assoc]
+    · intro e he
+      rcases List.mem_append.mp he with he | he
+      · exact h2 e he
+      · exact g2 e he
+    · exact g3
+
+/-- (spec keys `m` / `a` of the final block) From a state whose feed holds only handle events — the
+state the harness is in after every `settle` — any sequence of pushes, handle calls and `take_audit`,
+then `shutdown` / `abort` and the wait for the engine, makes the engine process handle events only:
+the final block's market and account projections are EMPTY. Whatever the forwarders enqueue later
+stands behind the `Shutdown` and is never processed (`nothing_after_stop`). -/
+theorem final_segment_no_stream_events (E : Engine σ μ α κ ρ) (X : Exchange χ ρ α)
+    (s : Sys σ χ μ α κ ρ) (user : List (Act μ κ)) (n : Nat)
+    (hf : ∀ e ∈ s.feed, e.isHandle = true) (hu : ∀ a ∈ user, Act.noForward a = true) :
+    let s1 := run E X s user
+    let s2 := run E X s1 (schedActs E X pickDrain n s1)
+    ∃ l, s2.processed = s.processed ++ l ∧ marketOf l = [] ∧ accountOf l = [] ∧ handleOf l = l := by
+  intro s1 s2
+  have hall : ∀ a ∈ user ++ schedActs E X pickDrain n s1, Act.noForward a = true := by
+    intro a ha
+    rcases List.mem_append.mp ha with ha | ha
+    · exact hu a ha
+    · rw [drain_only_engine E X n s1 a ha]; rfl
+  obtain ⟨l, h1, h2, _⟩ := no_forward_handle_only E X _ s hf hall
+  have e : s2 = run E X s (user ++ schedActs E X pickDrain n s1) := (run_append E X s user _).symm
+  refine ⟨l, by rw [e]; exact h1, ?_, ?_, ?_⟩
+  · clear h1
+    induction l with
+    | nil => rfl
+    | cons x xs ih =>
+      rw [marketOf_cons_of_handle _ _ (h2 x (by simp))]
+      exact ih (fun e he => h2 e (by simp [he]))
+  · clear h1
+    induction l with
+    | nil => rfl
+    | cons x xs ih =>
+      rw [accountOf_cons_of_handle _ _ (h2 x (by simp))]
+      exact ih (fun e he => h2 e (by simp [he]))
+  · exact List.filter_eq_self.mpr h2
+
 /-! ## Audit -/
 
 /-- (audit enabled) The snapshot is the built engine state with sequence 0; the ticks sent are
